@@ -539,6 +539,159 @@ func ReplayReadSched(col *core.Collector, data []byte, path string) error {
 	return nil
 }
 
+// SweepRaceCase: two more ways in which a write can race with the sweep.
+//   Kind 0: a burst of writes larger than the write buffer while the executor runs nothing: the writers
+//           that find the buffer full apply their own event; later the clock passes every deadline.
+//   Kind 1: several entries have expired; while the sweep is removing the first of them (yield point
+//           evictNode.enter) another goroutine invalidates one of the expired entries.
+// Afterwards a CleanUp more than a tick past every deadline must find nothing counted, and every entry
+// must have been reported exactly once.
+type SweepRaceCase struct {
+	Engine string `json:"engine"`
+	Seed   uint64 `json:"seed"`
+	Index  int    `json:"index"`
+	Kind   int    `json:"kind"`
+	Keys   int    `json:"keys"`
+	TTL    int64  `json:"ttl"`
+	Later  int64  `json:"later"`
+	Victim int    `json:"invalidated_key"`
+	Bound  int    `json:"maximum_size"`
+}
+
+func runSweepRace(sc *SweepRaceCase) (violation string) {
+	clk := NewManualClock(1_000_000_000)
+	var mu sync.Mutex
+	reports := map[int]int{}
+	var wg sync.WaitGroup
+	stalled := sc.Kind == 0
+	o := &otter.Options[int, int]{
+		Clock:            clk,
+		ExpiryCalculator: otter.ExpiryWriting[int, int](time.Duration(sc.TTL)),
+		OnDeletion: func(e otter.DeletionEvent[int, int]) {
+			mu.Lock()
+			reports[e.Key]++
+			mu.Unlock()
+		},
+	}
+	var queue []func()
+	o.Executor = func(fn func()) {
+		if stalled {
+			mu.Lock()
+			queue = append(queue, fn)
+			mu.Unlock()
+			return
+		}
+		fn()
+	}
+	if sc.Bound > 0 {
+		o.MaximumSize = sc.Bound
+	}
+	c, err := otter.New(o)
+	if err != nil {
+		return "cannot build: " + err.Error()
+	}
+	defer c.StopAllGoroutines()
+	for k := 0; k < sc.Keys; k++ {
+		c.Set(k, k)
+	}
+	// the pool wakes up again
+	mu.Lock()
+	stalled = false
+	q := queue
+	queue = nil
+	mu.Unlock()
+	for _, fn := range q {
+		fn()
+	}
+	clk.Advance(sc.TTL + 2*tickNanos + 5)
+	if sc.Kind == 1 {
+		fired := false
+		site := schedSites()["evictNode.enter"]
+		otter.VerifSetHook(func(s int) {
+			if s == site && !fired {
+				fired = true
+				wg.Add(1)
+				go func() {
+					defer wg.Done()
+					c.Invalidate(sc.Victim)
+				}()
+				wg.Wait()
+			}
+		})
+	}
+	c.CleanUp()
+	otter.VerifSetHook(nil)
+	wg.Wait()
+	clk.Advance(sc.Later)
+	c.CleanUp()
+	c.CleanUp()
+	if n := c.EstimatedSize(); n != 0 {
+		return fmt.Sprintf("CleanUp at %d, more than a tick after every deadline (%d entries written at 1000000000 with ttl %d): EstimatedSize is still %d", clk.NowNano(), sc.Keys, sc.TTL, n)
+	}
+	mu.Lock()
+	defer mu.Unlock()
+	for k := 0; k < sc.Keys; k++ {
+		if reports[k] != 1 {
+			return fmt.Sprintf("key %d (expired, removed) was reported %d times to OnDeletion (%d keys; kind %d: 0 = burst beyond the write buffer with a stalled pool, 1 = Invalidate(%d) during the sweep)", k, reports[k], sc.Keys, sc.Kind, sc.Victim)
+		}
+	}
+	return ""
+}
+
+// RunSweepRace runs the burst / invalidate-during-sweep cases of C13.
+func RunSweepRace(col *core.Collector, tier string, seed uint64, shard, nshards int, replayDir string) {
+	n := 160
+	if tier == "thorough" {
+		n = 6000
+	}
+	for i := shard; i < n; i += nshards {
+		r := core.NewRng(core.Derive(seed, core.StrLabel("C13sweeprace"), uint64(i)))
+		sc := &SweepRaceCase{Engine: "sweeprace", Seed: seed, Index: i, Kind: 1}
+		sc.TTL = int64(1+r.Intn(600)) * 1_000_000_000
+		sc.Later = tickNanos*int64(2+r.Intn(50)) + 1
+		sc.Keys = 2 + r.Intn(40)
+		if i%8 == 0 {
+			sc.Kind = 0
+			sc.Keys = 2048 + 1024 + r.Intn(1500) // more than the write buffer holds
+		}
+		sc.Victim = r.Intn(sc.Keys)
+		if r.Chance(1, 3) {
+			sc.Bound = sc.Keys + r.Intn(100)
+		}
+		v := runSweepRace(sc)
+		col.Eval(1)
+		col.Count(fmt.Sprintf("sweep_race.kind_%d", sc.Kind), 1)
+		col.NonTrivial(core.HashJSON(sc))
+		if v != "" {
+			path := filepath.Join(replayDir, fmt.Sprintf("C13-sweeprace-%x.json", core.HashJSON(sc)))
+			data, _ := json.MarshalIndent(map[string]any{"sweeprace_case": sc, "violation": v}, "", " ")
+			os.WriteFile(path, data, 0o644)
+			col.Violation(core.Violation{Property: "C13", Signature: "sweeprace:" + sigOf(v), Detail: v + fmt.Sprintf(" (case %+v)", *sc), Replay: path})
+			if col.NumViolations() >= 5 {
+				break
+			}
+		}
+	}
+}
+
+// ReplaySweepRace re-executes such a case from a replay file.
+func ReplaySweepRace(col *core.Collector, data []byte, path string) error {
+	var w struct {
+		Case SweepRaceCase `json:"sweeprace_case"`
+	}
+	if err := json.Unmarshal(data, &w); err != nil {
+		return err
+	}
+	v := runSweepRace(&w.Case)
+	col.Eval(1)
+	fmt.Printf("case %+v\n", w.Case)
+	if v != "" {
+		fmt.Println("violation:", v)
+		col.Violation(core.Violation{Property: "C13", Signature: "sweeprace:" + sigOf(v), Detail: v, Replay: path})
+	}
+	return nil
+}
+
 // ReplaySched re-executes a schedule from a replay file.
 func ReplaySched(col *core.Collector, data []byte, path string) error {
 	var w struct {
